@@ -310,15 +310,15 @@ Definition frame_sent (P : params) (method : str) (b : body) (flag : bool) (bs :
   end.
 
 Definition first_or_get (P : params) (method : str) (b0 : body) (flag : bool) (bs : nat) (s : sent) : Prop :=
-  Some s = frame_sent P method b0 flag bs \/ Some s = frame_sent P GET BNone flag bs.
+  Some s = frame_sent P method b0 flag bs \/ Some s = frame_sent P GET BNone flag bs \/ Some s = frame_sent P GET BNone false bs.
 
-Theorem resend_identical P via flag bs : fixed P ->
-  forall hist method b0 b p, rewindable b0 -> Inv b0 b p ->
+Theorem resend_identical P via bs : fixed P ->
+  forall hist flag method b0 b p, rewindable b0 -> Inv b0 b p ->
   Forall (first_or_get P method b0 flag bs) (fst (urlopen P via hist method b p flag bs)) /\
   snd (urlopen P via hist method b p flag bs) <> RErr EValueError.
 Proof.
   intros (Hk & Hc & Hm).
-  induction hist as [|o hist IH]; intros method b0 b p Hr Hi.
+  induction hist as [|o hist IH]; intros flag method b0 b p Hr Hi.
   - cbn [urlopen]. destruct (sfp_inv b0 b p Hr Hi) as [->|(p1 & -> & _)]; cbn [fst snd]; split; try constructor; discriminate.
   - cbn [urlopen]. destruct (sfp_inv b0 b p Hr Hi) as [->|(p1 & -> & Hi1 & Hnn)]; [cbn [fst snd]; split; [constructor|discriminate]|].
     rewrite Hk, Hc, Hm.
@@ -331,18 +331,19 @@ Proof.
            by (left; unfold frame_sent; rewrite Hf; reflexivity).
     all: pose proof (frame_inv _ _ _ _ _ _ _ _ _ _ Hr Hf Hi1 Hnn) as Hi2.
     + cbn [fst snd]. split; [constructor; [exact Hs0|constructor]|discriminate].
-    + destruct (IH method b0 b2 p1 Hr Hi2) as [Ha Hb].
+    + destruct (IH flag method b0 b2 p1 Hr Hi2) as [Ha Hb].
       destruct (urlopen P via hist method b2 p1 flag bs) as [more fin]. cbn [fst snd] in *. split; [constructor; assumption|exact Hb].
-    + destruct (IH method b0 b2 p1 Hr Hi2) as [Ha Hb].
+    + destruct (IH flag method b0 b2 p1 Hr Hi2) as [Ha Hb].
       destruct (urlopen P via hist method b2 p1 flag bs) as [more fin]. cbn [fst snd] in *. split; [constructor; assumption|exact Hb].
     + destruct so.
       * (* 303: a body-less GET from here on *)
         assert (Hp : (if via then PNone else PNone) = PNone) by (destruct via; reflexivity). rewrite Hp.
-        destruct (IH GET BNone BNone PNone I (conj eq_refl eq_refl)) as [Ha Hb].
-        destruct (urlopen P via hist GET BNone PNone flag bs) as [more fin]. cbn [fst snd] in *. split; [|exact Hb].
-        constructor; [exact Hs0|]. eapply Forall_impl; [|exact Ha]. intros s [H|H]; right; exact H.
+        destruct (IH (if see_other_unchunks P then false else flag) GET BNone BNone PNone I (conj eq_refl eq_refl)) as [Ha Hb].
+        destruct (urlopen P via hist GET BNone PNone (if see_other_unchunks P then false else flag) bs) as [more fin]. cbn [fst snd] in *. split; [|exact Hb].
+        constructor; [exact Hs0|]. eapply Forall_impl; [|exact Ha].
+        destruct (see_other_unchunks P); intros s [H|[H|H]]; try (right; right; exact H); right; left; exact H.
       * assert (Hp : (if via then p1 else p1) = p1) by (destruct via; reflexivity). rewrite Hp.
-        destruct (IH method b0 b2 p1 Hr Hi2) as [Ha Hb].
+        destruct (IH flag method b0 b2 p1 Hr Hi2) as [Ha Hb].
         destruct (urlopen P via hist method b2 p1 flag bs) as [more fin]. cbn [fst snd] in *. split; [constructor; assumption|exact Hb].
 Qed.
 
